@@ -67,6 +67,15 @@ def strata(tier):
                   [{"p": "prim", "v": "c"}, {"p": "list"}], [{"p": "mol"}, {"p": "mol"}, {"p": "mol"}], [{"p": "map"}]):
         for cond in FIXED_CONDS[:14]:
             yield {"path": PC.mkpath(parts), "cond": cond, "doc": ALIAS_DOC, "alias": True}
+    # equal-but-differently-typed values among the selected nodes of ONE test (each judged on its own)
+    TW = [1, 1.0, True, 0, 0.0, False, "1", -0.0, 2, 2.0]
+    for cond in (L("value", "is_instance", {"$type": "int"}), L("value", "is_instance", {"$type": "float"}), L("value", "is_instance", {"$type": "bool"}),
+                 L("value", "equal_to", {"$type": "int"}, pre="dtype"), L("value", "in_", [{"$type": "float"}, {"$type": "str"}], pre="dtype"),
+                 L("value", "equal_to", True), L("value", "equal_to", 1.0), L("value", "in_", [1, False]),
+                 AND(L("value", "is_instance", {"$type": "int"}), L("value", "truthy"))):
+        for doc in (TW, TW[::-1], {"k%d" % i: v for i, v in enumerate(TW)}, [[1, 1.0], [1.0, 1], [True, 1], [0.0, False, 0]]):
+            parts = [{"p": "mol"}] if type(doc[0] if type(doc) is list else 0) is not list else [{"p": "list"}, {"p": "list"}]
+            yield {"path": PC.mkpath(parts), "cond": cond, "doc": doc, "stratum": "typed-twins-in-one-test"}
     for cond in MULTI_XOR:
         for parts, doc in (([{"p": "list"}], [5, -10, 0, -1.5, True]), ([{"p": "map"}], {"a": 5, "b": -10, "c": 0}),
                            ([{"p": "mol"}, {"p": "mol"}], {"a": [5, -10], "b": {"x": 5, "y": -2.5}}), ([{"p": "prim", "v": 0}], [5, -10])):
